@@ -12,7 +12,7 @@ mod tests;
 use self::config::{
     AddAuditorServiceOptions, AddDaemonServiceOptions, AddFaucetServiceOptions,
     AddNodeServiceOptions, InstallAuditorServiceCtxBuilder, InstallFaucetServiceCtxBuilder,
-    InstallNodeServiceCtxBuilder,
+    InstallNodeServiceCtxBuilder, PortRange,
 };
 use crate::{
     config::{create_owned_dir, get_user_antnode_data_dir},
@@ -76,6 +76,31 @@ pub async fn add_node(
     if let Some(port_option) = &options.rpc_port {
         port_option.validate(options.count.unwrap_or(1))?;
         check_port_availability(port_option, &node_registry.nodes)?;
+    }
+
+    // The ports requested for the different kinds must not overlap each other either: every service
+    // of this batch records one port of each kind, and a port that one service records is refused to
+    // any other (see `check_port_availability`).
+    let requested_ranges: Vec<(u16, u16)> = [
+        &options.node_port,
+        &options.metrics_port,
+        &options.rpc_port,
+    ]
+    .into_iter()
+    .flatten()
+    .map(|port_option| match port_option {
+        PortRange::Single(port) => (*port, *port),
+        PortRange::Range(start, end) => (*start, *end),
+    })
+    .collect();
+    for (i, (start, end)) in requested_ranges.iter().enumerate() {
+        for (other_start, other_end) in requested_ranges.iter().skip(i + 1) {
+            if start <= other_end && other_start <= end {
+                let port = start.max(other_start);
+                error!("Port {port} is requested for more than one purpose");
+                return Err(eyre!("Port {port} is requested for more than one purpose"));
+            }
+        }
     }
 
     let owner = match &options.owner {
